@@ -5,6 +5,7 @@ import Driver.AckQueue
 import Driver.Auth
 import Driver.MsgLog
 import Driver.Broker
+import Driver.Wire
 /-! `waspmodel <domain> [args]` — executes the Lean models on op lines from stdin. -/
 open Driver
 
@@ -25,6 +26,7 @@ def main (args : List String) : IO UInt32 := do
   | ["ackq"] => loop stdin stdout Driver.AckQueue.step {}; return 0
   | ["auth"] => loop stdin stdout Driver.Auth.step {}; return 0
   | ["msglog"] => loop stdin stdout Driver.MsgLog.step {}; return 0
+  | ["wire"] => loop stdin stdout Driver.Wire.step (); return 0
   | ["broker"] => loop stdin stdout Driver.Broker.step {}; return 0
   | "broker" :: _ => loop stdin stdout Driver.Broker.step {}; return 0
   | _ => IO.eprintln "usage: waspmodel <domain>"; return 2
